@@ -2432,7 +2432,7 @@ namespace detail {
                         auto it = operator_stack_.rbegin();
                         while (it != operator_stack_.rend() && (*it).is_operator()
                                && (tok.precedence_level() > (*it).precedence_level()
-                             || (tok.precedence_level() == (*it).precedence_level() && tok.is_right_associative())))
+                             || (tok.precedence_level() == (*it).precedence_level() && !tok.is_right_associative())))
                         {
                             output_stack_.emplace_back(std::move(*it));
                             ++it;
